@@ -89,10 +89,31 @@ func main() {
 		initState(*out)
 	case "replay-gov":
 		replayGov(*in, *shard, *of)
+	case "probe-noise": // development aid: what does off-chain noise do to the projected state?
+		w := variantWorld(1)
+		before, _ := w.project()
+		for i, k := range []string{"acl", "daoOwner", "upgrade", "transfer"} {
+			c, q := w.s.Noise(w.forged(k, kOwner, kUnrelated, int64(900+i)))
+			fmt.Fprintf(os.Stderr, "noise %s: check=%d simulate=%d\n", k, c, q)
+			after, _ := w.project()
+			ok, why := diff(mergeSt(before), mergeSt(after))
+			fmt.Fprintf(os.Stderr, "   unchanged=%v %s\n", ok, why)
+		}
 	case "trace-gov":
 		traceGov(*out, *mode, *n, *blocks)
 	default:
 		fmt.Fprintln(os.Stderr, "unknown command", os.Args[1])
 		os.Exit(2)
 	}
+}
+
+func mergeSt(p govProj) map[string]interface{} {
+	m := map[string]interface{}{}
+	for k, v := range p.st {
+		m[k] = v
+	}
+	for k, v := range p.gp {
+		m[k] = v
+	}
+	return m
 }
